@@ -271,6 +271,29 @@ func runC06(c *core.Ctx) {
 		}
 	}
 
+	// (3a) layouts with a zone: every heading and every bound carries the same offset, among them offsets that are
+	// not whole hours (for which the time package builds a new location on every parse) and a zone abbreviation
+	for zi, zone := range []struct{ layout, suffix string }{{"2006/01/02 -0700", " +0530"}, {"2006/01/02 -0700", " -0330"}, {"2006/01/02 -07:00", " +05:45"}, {"2006/01/02 -0700", " +0200"}, {"2006/01/02 MST", " IST"}, {"2006/01/02 15:04 -0700", " 00:00 +0930"}} {
+		r := c.Rng("zoned", zi)
+		w := windows[zi%len(windows)]
+		log := c06Log(r, w, 8)
+		for di := range log {
+			log[di].Head = log[di].Date.Format("2006/01/02") + zone.suffix
+		}
+		zs := func(d gen.Date) *string { s := d.Format("2006/01/02") + zone.suffix; return &s }
+		for k := 0; k < c.N(6, 24); k++ {
+			b, e := w[r.Intn(6)], w[r.Intn(6)]
+			it := item{log: log, layout: zone.layout, b: &b, e: &e, bs: zs(b), es: zs(e), today: w[5].AddDays(3), cmd: c06Cmds[r.Intn(len(c06Cmds))], label: "zoned layout" + zone.suffix, zones: []string{"UTC", c06Zones[1+k%3]}}
+			switch k % 3 {
+			case 1:
+				it.b, it.bs = nil, nil
+			case 2:
+				it.e, it.es = nil, nil
+			}
+			items = append(items, it)
+		}
+	}
+
 	// (3b) dates far from today: bounds like 0001/01/01 and 9999/12/31 ("everything"), log days centuries away
 	{
 		r := c.Rng("far", 0)
